@@ -25,6 +25,7 @@ import (
 	"path/filepath"
 	"reflect"
 	"regexp"
+	"runtime/pprof"
 	"sort"
 	"strings"
 	"sync"
@@ -399,7 +400,14 @@ type batchStats struct {
 
 func runBatch(c *vh.Ctx, jobs []job) batchStats {
 	outs := make([]c02Out, len(jobs))
-	vh.Parallel(len(jobs), func(i int) { outs[i] = runCase(jobs[i].cs) })
+	slow := os.Getenv("C02_SLOW") != ""
+	vh.Parallel(len(jobs), func(i int) {
+		t := time.Now()
+		outs[i] = runCase(jobs[i].cs)
+		if d := time.Since(t); slow && d > 300*time.Millisecond {
+			fmt.Fprintf(os.Stderr, "SLOW %v %s %s\n", d, jobs[i].cs.Stream, jobs[i].cs.SrcText)
+		}
+	})
 	var st batchStats
 	var reqs []string
 	var reqIdx []int
@@ -536,7 +544,9 @@ func run(c *vh.Ctx) {
 		"error clauses), directed matrix (every numeric argument position of every builtin and every special variable × value " +
 		"classes incl. NaN/±Inf/±2^63/1e30/invalid UTF-8/NUL, via BEGIN and via Config.Vars), grammar-generated programs, byte-level " +
 		"mutants of the repository's test programs, host-side faults (every I/O site x failing Output/Error/Stdin/OpenFile/ShellCommand x " +
-		"ExecProgram/Execute/ExecuteContext). Non-trivial = the program compiled to at least 4 code words.")
+		"ExecProgram/Execute/ExecuteContext), string operations (every string builtin x byte/character mode x broken UTF-8 at the start, middle, end of the string x numeric " +
+		"arguments at every boundary), literal operands (every literal / constant field-index and subscript shape x earlier accesses to the same record x every read and write use x context). " +
+		"Non-trivial = the program compiled to at least 4 code words.")
 	dir, err := os.MkdirTemp("", "c02_")
 	if err != nil {
 		panic(err)
@@ -554,6 +564,25 @@ func run(c *vh.Ctx) {
 		return
 	}
 
+	if pf := os.Getenv("C02_PROF"); pf != "" {
+		if fh, err := os.Create(pf); err == nil {
+			pprof.StartCPUProfile(fh)
+			defer pprof.StopCPUProfile()
+		}
+	}
+	// debugging aid: run one of the directed streams alone
+	switch os.Getenv("C02_ONLY") {
+	case "operands":
+		runBatch(c, operandJobs(c))
+		return
+	case "strops":
+		runBatch(c, stropsJobs(c))
+		return
+	case "models":
+		substrCorrespondence(c)
+		operandCorrespondence(c)
+		return
+	}
 	t0 := time.Now()
 	lap := func(name string) {
 		c.Note(fmt.Sprintf("phase %s: %.1fs", name, time.Since(t0).Seconds()))
@@ -653,6 +682,32 @@ func run(c *vh.Ctx) {
 	c.Note(fmt.Sprintf("same-key: %d cases (formats with k, k-1, 0, k+2 arguments in every order within one run and across Execute calls, with the "+
 		"caches empty or full; dynamic regexes valid/invalid across ~ match split sub gsub FS RS; CSV field names; one name as input file, output file and command)", len(kj)))
 	lap("same-key")
+	// 5f. string operations x byte/character mode x broken UTF-8 at the start, middle, end x numeric arguments at every boundary
+	sj := stropsJobs(c)
+	st = runBatch(c, sj)
+	c.Note(fmt.Sprintf("strops: %d cases (%d operations: substr 2/3-argument, index, length, match, split incl. \"\" / char / regex separator, sub, gsub, tolower/toupper, "+
+		"sprintf/printf %%c %%s %%*.*s and numeric verbs, comparison, concatenation, string-to-number, array keys, field splitting and rebuilding under %d field separators, dynamic "+
+		"regexes made of the pieces of the string in match/split/sub/gsub/SUBSEP/RS/FS, getline forms) x byte and character mode x %d atoms (valid 2/3/4-byte, U+FFFD, BOM, stray continuation, "+
+		"truncated 2/3/4-byte sequences, overlong, surrogate, out of range, 0xFF/0xFE, NUL and separators) at the start / middle / end / alone / doubled / between and after multi-byte characters + random "+
+		"concatenations x %d numeric values per argument (0, 1, L, C, each +-1, +-2, +-0.5, negative, 2^31, 2^32, 2^53, 2^63, 1e30, 1e308, NaN, +-Inf, strings) x route (Config.Vars, input record), %d timeouts; panics only",
+		len(sj), len(strOps)+len(strRecOps), len(strFS)+6, len(strAtoms), len(strNums)+2, st.timeouts))
+	lap("strops")
+	if c.HasLean() {
+		substrCorrespondence(c)
+		lap("substr-model")
+	}
+	// 5g. literal / constant operand shapes x earlier accesses to the same record x every use x context
+	oj := operandJobs(c)
+	st = runBatch(c, oj)
+	c.Note(fmt.Sprintf("operands: %d cases, %d accepted by the parser (%d field-index shapes: literal, negated, parenthesised, fractional, huge around 2^31 / 2^32 / 2^63, NF-relative, constant "+
+		"expressions, strings, nested, through variables; %d subscripts x global / special / local arrays) x %d earlier accesses to the same record (reads, NF, field and $0 assignments, NF changes, "+
+		"getline forms, sub) x %d read uses (a third of them per program) or one of %d write uses followed by reading back x %d contexts (rule, two rules, pattern, range, BEGIN, BEGIN with getline loops, END, functions, "+
+		"recursion, loops, next), %d timeouts; panics only", len(oj), st.parsed, len(fieldOperands), len(subscripts), len(preStates), len(readUses), len(writeUses), len(opContexts), st.timeouts))
+	lap("operands")
+	if c.HasLean() {
+		operandCorrespondence(c)
+		lap("operand-model")
+	}
 	// 5e. host-side faults at every place the interpreter talks to the outside, through every entry point
 	fj := faultJobs(c)
 	st = runBatch(c, fj)
